@@ -17,7 +17,7 @@ META = {
     "bounds": {"quick": {"index list": "<= 2 entries in 0..time+2", "ops": "<= 2", "tasks": "2-3"}, "thorough": {"index list": "<= 3 entries", "ops": "<= 3"}},
     "outside": profiles.OUTSIDE + ["negative indices", "workflows containing BaseSubProjectTask (see known findings)"],
 }
-REQUIRED_COVERS = {"any": ["insert:step0", "insert:beyond-end", "insert:duplicate", "insert:inside", "remove:applied", "roundtrip"]}
+REQUIRED_COVERS = {"any": ["insert:step0", "insert:beyond-end", "insert:duplicate", "insert:inside", "remove:applied", "roundtrip", "after-backward"]}
 
 
 def check_aligned(M, ctx, where):
@@ -39,12 +39,18 @@ def edit(p, ctx):
     ops = p["ops"]
     with Sim(ctx):
         M = build(spec, p, ctx.symbolic)
-        ok, r = ctx.call(M.project.simulate, **sim_kwargs(M))
+        if p.get("backward"):
+            ok, r = ctx.call(M.project.backward_simulate, **sim_kwargs(M))
+            ctx.cover("after-backward")
+        else:
+            ok, r = ctx.call(M.project.simulate, **sim_kwargs(M))
         if not ok:
             ctx.aborted = exc_tag(r)
             return
         T0 = M.project.time
-        had_absence = any(True for a in M.run["abs"] if a < T0)
+        had_absence = any(True for a in M.project.absence_time_list if 0 <= a < T0)
+        if any(True for a in M.project.absence_time_list if a < 0):
+            ctx.fail("C18:negative-step-registered-as-absence")
         d0 = dump(M)
         applied_any = False
         for oi, op in enumerate(ops):
@@ -106,7 +112,7 @@ def edit(p, ctx):
                 if list(M.project.absence_time_list) != []:
                     ctx.fail("C18:remove:absence-list-not-cleared")
         # insert then remove on an absence-free result restores the logs
-        if [o[0] for o in ops] == ["insert", "remove"] and not had_absence and not ctx.fails:
+        if ops[-1][0] == "remove" and all(o[0] == "insert" for o in ops[:-1]) and len(ops) >= 2 and not had_absence and not ctx.fails:
             k = diff_dumps(d0, dump(M))
             if k is not None:
                 ctx.fail("C18:roundtrip-differs:%s" % short_key(k))
@@ -134,8 +140,12 @@ def obligations(tier, seed):
     ]
     if thorough:
         seqs += [[["insert", ["$i0", "$i1", "$i2"]], ["remove"]], [["insert", ["$i0"]], ["remove"], ["insert", ["$i1"]]], [["insert", ["$i0"]], ["insert", ["$i1"]], ["remove"]]]
+    seqs.append([["insert", ["$i0"]], ["insert", ["$i1", "$i2"]], ["remove"]])
+    members.append(("wf-backward", members[0][1], [["w0", 1, 2], ["w1", 1, 2], ["pa0", 0, 6]], {"backward": True}))
     for mname, spec, params, consts in members:
-        for ops in (seqs if mname != "subtask" else seqs[:1] + seqs[4:5]):
+        for ops in (seqs if mname not in ("subtask", "wf-backward") else seqs[:1] + seqs[4:5]):
+            if len(ops) == 3 and mname != "wf2teams" and not thorough:
+                continue
             names = sorted({x[1:] for o in ops if len(o) > 1 for x in o[1]})
             pr = list(params) + [[n, 0, 8 if thorough else 7] for n in names]
             obs.append({"name": "edit/%s/%s" % (mname, ">".join(o[0] + (str(len(o[1])) if len(o) > 1 else "") for o in ops)), "harness": "edit",
